@@ -64,6 +64,10 @@ func Dedup(pts []Pt) []Pt {
 type Stmt struct {
 	Func      string // "" = raw
 	Field     string
+	// Aux are further fields selected next to Field (raw: a row exists where
+	// any selected field has a value; selector: the values of the selected
+	// point). Only without GROUP BY time.
+	Aux []string
 	M         string
 	TMin      int64 // inclusive
 	TMax      int64 // inclusive
@@ -88,6 +92,9 @@ func (s Stmt) Text() string {
 		fmt.Fprintf(&b, "%q", s.Field)
 	} else {
 		fmt.Fprintf(&b, "%s(%q)", s.Func, s.Field)
+	}
+	for _, a := range s.Aux {
+		fmt.Fprintf(&b, ", %q", a)
 	}
 	fmt.Fprintf(&b, " FROM %q WHERE time >= %d AND time <= %d", s.M, s.TMin, s.TMax)
 	ks := make([]string, 0, len(s.TagEq))
@@ -143,6 +150,9 @@ func (s Stmt) Shape() string {
 		sh = "raw"
 	}
 	sh += "/" + s.Field
+	if len(s.Aux) > 0 {
+		sh += "+aux:" + strings.Join(s.Aux, ",")
+	}
 	if len(s.TagEq) > 0 {
 		sh += "/where-tag"
 	}
@@ -172,8 +182,9 @@ func (s Stmt) Shape() string {
 
 // Row is (time, value); Value nil = null.
 type Row struct {
-	T int64
-	V interface{}
+	T   int64
+	V   interface{}
+	Aux []interface{} // one per Stmt.Aux (nil = no value)
 }
 
 // Series is one result series.
@@ -184,8 +195,9 @@ type Series struct {
 }
 
 type tv struct {
-	t int64
-	v interface{}
+	t   int64
+	v   interface{}
+	aux []interface{}
 }
 
 func tagOf(p Pt, k string) string { return p.Tags[k] }
@@ -201,6 +213,23 @@ func Eval(s Stmt, pts []Pt) []Series {
 			continue
 		}
 		v, ok := p.F[s.Field]
+		var aux []interface{}
+		if len(s.Aux) > 0 {
+			anyAux := false
+			for _, a := range s.Aux {
+				av, aok := p.F[a]
+				if aok {
+					anyAux = true
+					aux = append(aux, av)
+				} else {
+					aux = append(aux, nil)
+				}
+			}
+			if !ok && s.Func == "" && anyAux {
+				// raw select: a row exists where any selected field has a value
+				ok, v = true, nil
+			}
+		}
 		if !ok {
 			continue
 		}
@@ -220,7 +249,7 @@ func Eval(s Stmt, pts []Pt) []Series {
 			tags[d] = tagOf(p, d)
 		}
 		id := strings.Join(idParts, "\x00")
-		groups[id] = append(groups[id], tv{p.T, v})
+		groups[id] = append(groups[id], tv{p.T, v, aux})
 		gtags[id] = tags
 	}
 	ids := make([]string, 0, len(groups))
@@ -236,14 +265,22 @@ func Eval(s Stmt, pts []Pt) []Series {
 		switch {
 		case s.Func == "":
 			for _, x := range vals {
-				rows = append(rows, Row{x.t, x.v})
+				rows = append(rows, Row{x.t, x.v, x.aux})
 			}
 		case s.Interval == 0:
 			t, v := reduce(s.Func, vals)
+			var aux []interface{}
 			if !isSelector(s.Func) {
 				t = s.TMin
+			} else if len(s.Aux) > 0 {
+				for _, x := range vals {
+					if x.t == t {
+						aux = x.aux
+						break
+					}
+				}
 			}
-			rows = append(rows, Row{t, v})
+			rows = append(rows, Row{t, v, aux})
 		default:
 			rows = windows(s, vals)
 		}
@@ -318,12 +355,12 @@ func windows(s Stmt, vals []tv) []Row {
 			i++
 		}
 		if len(in) == 0 {
-			rows = append(rows, Row{w, nil})
+			rows = append(rows, Row{T: w})
 			filled = append(filled, true)
 			continue
 		}
 		_, v := reduce(s.Func, in)
-		rows = append(rows, Row{w, v})
+		rows = append(rows, Row{T: w, V: v})
 		filled = append(filled, false)
 	}
 	// fill
